@@ -28,6 +28,7 @@ DEFAULT_CFG = {
     "max_inv": 14,
     "max_retries": 3,
     "timer_choices": False,
+    "timer_lag": 0.0,           # seconds the backend needs to notice that a wait / retry delay is over
     "stall": [],                # menu of stall durations (s): the running thread may lose the CPU that long at any point
     "line_files": None,
     "max_steps": 60_000,
@@ -46,6 +47,10 @@ OUTCOMES = {
     "timeout": ("TIMED_OUT", None, {"ErrorType": "Callback.Timeout", "ErrorMessage": "ext timed out"}),
     "stopped": ("STOPPED", None, {"ErrorType": "ChainedInvoke.Stopped", "ErrorMessage": "ext stopped"}),
     "cancelled": ("CANCELLED", None, {"ErrorMessage": "ext cancelled"}),
+    # terminal non-success outcomes recorded without any error object
+    "fail-noerr": ("FAILED", None, None),
+    "timeout-noerr": ("TIMED_OUT", None, None),
+    "stopped-noerr": ("STOPPED", None, None),
 }
 
 
